@@ -181,12 +181,12 @@ func (eval Evaluator) Add(op0 *rlwe.Ciphertext, op1 rlwe.Operand, opOut *rlwe.Ci
 	switch op1 := op1.(type) {
 	case rlwe.ElementInterface[ring.Poly]:
 
-		degree, level, err := eval.InitOutputBinaryOp(op0.El(), op1.El(), op0.Degree()+op1.Degree(), opOut.El())
+		_, level, err := eval.InitOutputBinaryOp(op0.El(), op1.El(), op0.Degree()+op1.Degree(), opOut.El())
 		if err != nil {
 			return fmt.Errorf("cannot Add: %w", err)
 		}
 
-		opOut.Resize(degree, level)
+		opOut.Resize(utils.Max(op0.Degree(), op1.Degree()), level)
 
 		if op0.Scale.Cmp(op1.El().Scale) == 0 {
 			eval.evaluateInPlace(level, op0, op1.El(), opOut, ringQ.AtLevel(level).Add)
@@ -362,12 +362,12 @@ func (eval Evaluator) Sub(op0 *rlwe.Ciphertext, op1 rlwe.Operand, opOut *rlwe.Ci
 	switch op1 := op1.(type) {
 	case rlwe.ElementInterface[ring.Poly]:
 
-		degree, level, err := eval.InitOutputBinaryOp(op0.El(), op1.El(), op0.Degree()+op1.Degree(), opOut.El())
+		_, level, err := eval.InitOutputBinaryOp(op0.El(), op1.El(), op0.Degree()+op1.Degree(), opOut.El())
 		if err != nil {
 			return fmt.Errorf("cannot Sub: %w", err)
 		}
 
-		opOut.Resize(degree, level)
+		opOut.Resize(utils.Max(op0.Degree(), op1.Degree()), level)
 
 		ringQ := eval.parameters.RingQ()
 
